@@ -61,6 +61,10 @@ def classify_store(I, e, store):
         leaves(val, [])
         if len(alts) > 1 and all(t == NONE or (isinstance(t, Op) and t.op == "import_module" and t.args[0] == key) or isinstance(t, Undef)
                                  for t, _ in alts):
+            for t, cs in alts:
+                if t == NONE and not any(isinstance(c, Sym) and c.kind == "exc" for c in cs):
+                    return "bad", "the import cache records the module as missing on a path on which its import was not attempted " \
+                                  "(under %s): a later decode with other options finds the stale entry" % (repr(and_(*cs))[:120],)
             _NONE_EXCS[id(store)] = [c for t, cs in alts if t == NONE for c in cs if isinstance(c, Sym) and c.kind == "exc"]
             return "import-cache-missing", None
         if log_derived(I, val) or log_derived(I, key):
@@ -99,6 +103,39 @@ def missing_store_ok(I, store):
         return False, "the try whose handler marks the module as missing also covers the use of the module (%s at line %s): a parser " \
                       "failing on one log disables it for every later log" % (u.data[1] if u.kind == "methcall" else u.data[0], getattr(u.node, "lineno", "?"))
     return True, None
+
+
+def shared_write_problems(I):
+    """[(event, message)] for every write a decode makes into state that outlives it and that is not one of the accepted
+    idioms (import cache keyed by module name, 'missing' recorded by the import's own handler, one-shot log-independent
+    load, flag).  Used by the properties whose statement implies 'this part of the output depends on this log only'."""
+    out = []
+    seen = set()
+    evs = I.events
+    for i, e in enumerate(evs):
+        if e.kind != "shared_mutation":
+            continue
+        key = (e.func, getattr(e.node, "lineno", 0), e.data[0], e.data[1])
+        if key in seen:
+            continue
+        seen.add(key)
+        store = None
+        for x in evs[i + 1:i + 4]:
+            if x.kind in ("dict_store", "attr_store", "append", "extend", "listmut", "dictmut", "dict_update", "global_store", "class_store") and x.node is e.node:
+                store = x
+                break
+        if e.data[0].startswith("class ") or e.data[0].startswith("default argument"):
+            out.append((e, "decoded data is accumulated in %s, which is shared by all objects of that kind: a later section / log shows an "
+                           "earlier one's values" % e.data[0]))
+            continue
+        kind, problem = classify_store(I, e, store)
+        if kind in ("bad", "unknown"):
+            out.append((e, "write to state shared by all decodes (%s): %s" % (e.data[0], problem)))
+        elif kind == "import-cache-missing":
+            ok, why = missing_store_ok(I, store)
+            if not ok:
+                out.append((e, why))
+    return out
 
 
 def check_decode_state(rep, prog, runs):
@@ -312,6 +349,41 @@ def check_one_shot_iterators(rep, prog, runs):
     rep.count("values held by shared objects", n)
 
 
+def check_loaded_data_and_options(rep, prog, runs):
+    """(a) values reached through data that was loaded once and is shared (the message registry, component-id files) are
+    never modified in place by a decode; (b) a decode does not change the options object it was given"""
+    rule = "C19.R3.shared-state-writes"
+    n = 0
+    seen = set()
+    for label, I in runs:
+        for e in I.events:
+            if e.kind == "ext_setitem" and any(isinstance(x, Op) and x.op in ("call:json.load", "call:json.loads") and
+                                               any(isinstance(y, Op) and y.op == "file" for y in walk(x)) for x in walk(e.data[0])):
+                k = (e.func, getattr(e.node, "lineno", 0))
+                if k in seen:
+                    continue
+                seen.add(k)
+                n += 1
+                rep.fail(rule, e.func, e.node, "an element of data loaded from a file and kept for all decodes (%s) is overwritten in place: "
+                         "the next decode that uses this entry sees the values of this log" % (repr(e.data[0])[:100],), node=e.node)
+    # (b) drivers of a whole decode, with the section decoders opaque
+    for fn, extra in (("parsePEL", [Const(False)]), ("parsePELSummary", [])):
+        I = Interpreter(prog, hooks={"opaque": {"pel.peltool.peltool.sectionFun", "pel.peltool.peltool.considerPEL", "pel.peltool.peltool.prettyPrint",
+                                                "pel.peltool.peltool.buildOutput"}})
+        st = pelx.new_stream(I)
+        cfg = I.new("pel.peltool.config.Config")
+        seq0 = len(I.events)
+        I.call("pel.peltool.peltool." + fn, [st, cfg] + extra)
+        for e in I.events[seq0:]:
+            if e.kind == "attr_store" and e.data[0] == cfg:
+                n += 1
+                rep.fail(rule, e.func, e.node, "%s changes the options object it was given (Config.%s): if the decode is left by an exception, or "
+                         "simply afterwards, every later decode with the same options runs with another setting" % (fn, e.data[1]), node=e.node)
+    rep.count("in-place updates of loaded data / option writes examined", n)
+    if not n:
+        rep.ok(rule, "no decode overwrites loaded shared data or its options object")
+
+
 def run(rep, prog, thorough):
     rep.explanation = (
         "All decode entry points (every section kind, both header decoders, every shipped plugin entry) are interpreted and "
@@ -321,11 +393,18 @@ def run(rep, prog, thorough):
         "log-keyed memoisation are violations. In directory modes no loop-carried local holding a decode result may be read "
         "in a later iteration.")
     runs = decoder_runs(prog)
+    # the sections that consult plug-ins once more with the plug-in switch symbolic: what a decode leaves behind must not
+    # depend on the options of the decode that happened to run first
+    from .c01 import run_sectionfun
+    for sid in (0x5544, 0x4544, 0x5053):
+        I_, _, _ = run_sectionfun(prog, sid, Sym("plugins", "exc"))
+        runs.insert(0, ("sectionFun(0x%04X) with a symbolic plug-in switch" % sid, I_))      # examined first: sites are reported once
     rep.count("decode entry points interpreted", len(runs))
     check_decode_state(rep, prog, runs)
     check_inventory(rep, prog, runs)
     check_registry(rep, prog, runs)
     check_one_shot_iterators(rep, prog, runs)
+    check_loaded_data_and_options(rep, prog, runs)
     check_dir_loops(rep, prog)
     from ..effects import check_no_memoised
     check_no_memoised(rep, prog, 'C19.R3.shared-state-writes', None, 'a decode returns what an earlier decode computed for equal arguments')
